@@ -21,7 +21,8 @@ RULE = (
     "global-activate <spec>, global-deactivate <any active>, call <plan>, refused activation <kind>, "
     "fresh-probe probe, start / advance / close / drop a generator object, activate / deactivate a global probe "
     "from inside a running call} over 12 probe specs with overlapping "
-    "selectors on fa/fb/fc/ga (immediate, chain, sibling calls, total, overridable, two-selector, strict reducer). evaluations = operations applied. A history is "
+    "selectors on fa/fb/fc/ga (immediate, chain, sibling calls, total, overridable, two-selector, strict reducer, "
+    "one capture name used for two different variables). evaluations = operations applied. A history is "
     "non-trivial when a call happens after a non-LIFO deactivation, after an exceptional exit or after a "
     "refused activation, with >=2 probes having been active together, or a generator object lives across a "
     "change of the active set; distinct by history hash."
